@@ -138,14 +138,95 @@ EDGE_CASES = [
 
 
 # ---------------------------------------------------------------- implementation run
-def call_impl(case):
-    from solvor.dlx import solve_exact_cover
+def mk_label(d):
+    """Label descriptor (JSON-able) -> a FRESH Python object at call time: ints and strings are rebuilt so that equal
+    labels in `columns` and `secondary` are not identical objects; lists become tuples, {"fs": [...]} frozensets."""
+    if d is None or isinstance(d, bool):
+        return d
+    if isinstance(d, int):
+        return int(str(d))
+    if isinstance(d, float):
+        return float(repr(d))
+    if isinstance(d, str):
+        return "".join(list(d))
+    if isinstance(d, (list, tuple)):
+        return tuple(mk_label(x) for x in d)
+    if isinstance(d, dict) and "fs" in d:
+        return frozenset(mk_label(x) for x in d["fs"])
+    raise ValueError(f"bad label descriptor {d!r}")
 
-    kw = {"columns": case["columns"], "secondary": case["secondary"], "find_all": case["find_all"],
-          "max_solutions": case["max_solutions"]}
+
+def labels(case):
+    """(column names or None, secondary names or None) as Python objects."""
+    cols = None if case["columns"] is None else [mk_label(d) for d in case["columns"]]
+    sec = None if case["secondary"] is None else [mk_label(d) for d in case["secondary"]]
+    return cols, sec
+
+
+def materialize(case):
+    """The actual positional/keyword objects of the call: (matrix, columns, secondary), dressed as case['dress'] says
+    (container types, aliasing).  A dress that does not fit the data falls back to plain lists."""
+    dress = case.get("dress") or {}
+    rows = [list(r) for r in case["matrix"]]
+    byteable = all(isinstance(v, int) and not isinstance(v, bool) and 0 <= v <= 255 for r in rows for v in r)
+    mk = dress.get("matrix", "list")
+    if mk == "tuple":
+        M = tuple(tuple(r) for r in rows)
+    elif mk == "tuple_rows":
+        M = [tuple(r) for r in rows]
+    elif mk == "bytes_rows" and byteable:
+        M = [bytes(r) for r in rows]
+    elif mk == "bytearray_rows" and byteable:
+        M = tuple(bytearray(r) for r in rows)
+    elif mk == "range_rows" and all(r == list(range(len(r))) for r in rows):
+        M = [range(len(r)) for r in rows]
+    elif mk == "alias_rows":  # equal rows are ONE shared list object
+        seen = {}
+        M = [seen.setdefault(repr(r), r) for r in rows]
+    else:
+        M = rows
+    cols, sec = labels(case)
+
+    def consecutive(xs):
+        return bool(xs) and all(isinstance(x, int) and not isinstance(x, bool) for x in xs) and list(xs) == list(range(xs[0], xs[0] + len(xs)))
+
+    ck, sk = dress.get("columns", "list"), dress.get("secondary", "list")
+    if cols is not None:
+        if ck == "tuple":
+            cols = tuple(cols)
+        elif ck == "range" and (consecutive(cols) or not cols):
+            cols = range(cols[0], cols[0] + len(cols)) if cols else range(0)
+    if sec is not None:
+        if sk == "same_as_columns" and cols is not None and list(sec) == list(cols):
+            sec = cols  # the very same object
+        elif sk == "tuple":
+            sec = tuple(sec)
+        elif sk == "range" and consecutive(sec):
+            sec = range(sec[0], sec[0] + len(sec))
+        elif sk == "str" and sec and all(isinstance(x, str) and len(x) == 1 for x in sec):
+            sec = "".join(sec)
+    return M, cols, sec
+
+
+def options(case):
+    kw = {"find_all": case["find_all"], "max_solutions": case["max_solutions"]}
     if case["max_iter"] is not None:
         kw["max_iter"] = case["max_iter"]
-    return solve_exact_cover(case["matrix"], **kw)
+    return kw
+
+
+def call_args(args, kw):
+    from solvor.dlx import solve_exact_cover
+
+    return solve_exact_cover(args[0], columns=args[1], secondary=args[2], **kw)
+
+
+def call_impl(case):
+    return call_args(materialize(case), options(case))
+
+
+def same_args(a, b):
+    return a == b and repr(a[0]) == repr(b[0]) and type(a[1]) is type(b[1]) and type(a[2]) is type(b[2])
 
 
 def canon_result(res):
@@ -171,13 +252,13 @@ def canon_result(res):
             "evaluations": r.evaluations, "status": r.status.name}
 
 
-def run_impl(case):
-    """Run twice on deep copies; report mutation of the inputs and non-determinism."""
-    c1 = copy.deepcopy(case)
-    out1 = canon_result(guarded(call_impl, c1, timeout=5))
-    mutated = c1 != case
-    c2 = copy.deepcopy(case)
-    out2 = canon_result(guarded(call_impl, c2, timeout=5))
+def run_impl(case, timeout=5):
+    """Run twice on freshly built argument objects; report mutation of the caller's objects and non-determinism."""
+    args = materialize(case)
+    snap = copy.deepcopy(args)
+    out1 = canon_result(guarded(call_args, args, options(case), timeout=timeout))
+    mutated = not same_args(args, snap)
+    out2 = canon_result(guarded(call_args, materialize(case), options(case), timeout=timeout))
     return out1, mutated, out1 != out2
 
 
@@ -187,13 +268,14 @@ def reading(case):
     or None when the call is malformed (wrong number of names / a truthy entry beyond the named columns)."""
     m = case["matrix"]
     nc = len(m[0]) if m else 0
-    names = list(case["columns"]) if case["columns"] else list(range(nc))
+    cols, sec_l = labels(case)
+    names = list(cols) if cols else list(range(nc))
     if len(names) != nc:
         return None
     for row in m:
         if any(v for v in row[nc:]):
             return None
-    secset = set(case["secondary"] or [])
+    secset = set(sec_l or [])
     prim = [i for i in range(nc) if names[i] not in secset]
     sec = [i for i in range(nc) if names[i] in secset]
 
@@ -234,6 +316,49 @@ def all_covers(rd):
     return out
 
 
+class _Cap(Exception):
+    pass
+
+
+def ref_covers(rd, cap=150000):
+    """Naive reference for instances too tall for subset enumeration: branch on the rows of one uncovered primary
+    column (sets of columns, no links, no sizes).  Returns the set of covers, or None beyond `cap` nodes / depth."""
+    cell, nr, prim, sec = rd
+    allc = prim + sec
+    primset = frozenset(prim)
+    rows = {}
+    for r in range(nr):
+        cs = frozenset(c for c in allc if cell(r, c))
+        if cs & primset:
+            rows[r] = cs
+    by_col = {c: [r for r, cs in rows.items() if c in cs] for c in prim}
+    out = set()
+    nodes = [0]
+
+    def rec(need, used, chosen):
+        nodes[0] += 1
+        if nodes[0] > cap or len(chosen) > 400:
+            raise _Cap()
+        if not need:
+            out.add(frozenset(chosen))
+            return
+        best = None
+        for c in need:
+            cands = [r for r in by_col[c] if rows[r].isdisjoint(used)]
+            if best is None or len(cands) < len(best):
+                best = cands
+                if not cands:
+                    return
+        for r in best:
+            rec(need - rows[r], used | rows[r], chosen + [r])
+
+    try:
+        rec(primset, frozenset(), [])
+    except _Cap:
+        return None
+    return out
+
+
 def oracle(case, out, mutated, nondet):
     """None if the output obeys the property, else (kind, description)."""
     if mutated:
@@ -246,9 +371,9 @@ def oracle(case, out, mutated, nondet):
         return None if out["kind"] in ("done", "IndexError") else ("crash", f"malformed call: {out}")
     if out["kind"] != "done":
         return ("crash", f"implementation did not return: {out}")
-    if rd[1] > 12:
-        return None  # subset enumeration only up to 12 rows (generators never exceed 10)
-    covers = all_covers(rd)
+    # all exact covers: subset enumeration up to 12 rows, beyond that an independent set-based branching reference
+    # (None when even that is too large: then only the per-selection clauses are judged)
+    covers = all_covers(rd) if rd[1] <= 12 else ref_covers(rd)
     fa, ms, mi = case["find_all"], case["max_solutions"], case["max_iter"]
     mi_eff = DEFAULT_MAX_ITER if mi is None else mi
     st, sels, shape = out["status"], out["sels"], out["shape"]
@@ -277,6 +402,8 @@ def oracle(case, out, mutated, nondet):
         return ("status", f"status {st} with iterations={out['iterations']} max_iter={mi_eff}")
     if st == "MAX_ITER":
         return None  # cut by max_iter: nothing more is promised (selections were checked above)
+    if covers is None:
+        return None
     # 4. INFEASIBLE exactly when no cover exists
     if (st == "INFEASIBLE") != (not covers):
         return ("infeasible_iff", f"status {st} but {len(covers)} exact cover(s) exist")
@@ -343,8 +470,16 @@ def shrink(case, kind):
                 break
         if changed:
             continue
-        for key, val in (("max_iter", None), ("max_solutions", None), ("secondary", None), ("columns", None)):
-            if cur[key] is not None and not (key == "columns" and cur["secondary"]):
+        for i in range(len(cur["secondary"] or [])):
+            c = copy.deepcopy(cur)
+            del c["secondary"][i]
+            if fails(c):
+                cur, changed = c, True
+                break
+        if changed:
+            continue
+        for key, val in (("dress", None), ("max_iter", None), ("max_solutions", None), ("secondary", None), ("columns", None)):
+            if cur.get(key) is not None and not (key == "columns" and cur["secondary"]):
                 c = copy.deepcopy(cur)
                 c[key] = val
                 if fails(c):
@@ -355,25 +490,28 @@ def shrink(case, kind):
 
 # ---------------------------------------------------------------- Coq terms
 def number_names(case):
+    """name object -> nat id for the model (identity for the default names; Python's ==/hash decides equality, as in
+    the set the code builds from `secondary`)."""
     m = case["matrix"]
     nc = len(m[0]) if m else 0
+    cols, sec = labels(case)
     table = {}
-    if case["columns"]:
-        for n in case["columns"]:
+    if cols:
+        for n in cols:
             table.setdefault(n, len(table))
     else:
         for i in range(nc):
             table[i] = i
-    for s in case["secondary"] or []:
-        table.setdefault(s, len(table))
-    return table
+    for x in sec or []:
+        table.setdefault(x, len(table))
+    return table, cols, sec
 
 
 def coq_input(case):
-    t = number_names(case)
+    t, cols_l, sec_l = number_names(case)
     mat = clist(case["matrix"], lambda row: clist(row, lambda v: cbool(bool(v))))
-    cols = "None" if case["columns"] is None else "(Some " + clist([t[n] for n in case["columns"]], cnat) + ")"
-    sec = clist([t[s] for s in (case["secondary"] or [])], cnat)
+    cols = "None" if cols_l is None else "(Some " + clist([t[n] for n in cols_l], cnat) + ")"
+    sec = clist([t[x] for x in (sec_l or [])], cnat)
     mi = DEFAULT_MAX_ITER if case["max_iter"] is None else case["max_iter"]
     return ("{| matrix := %s; columns := %s; secondary := %s; find_all := %s; max_solutions := %s; max_iter := %s |}"
             % (mat, cols, sec, cbool(case["find_all"]), copt(case["max_solutions"], cz), cz(mi)))
@@ -404,7 +542,8 @@ def _corpus():
     if d.exists():
         for f in sorted(d.glob("*.json")):
             o = json.loads(f.read_text())
-            out.append({k: o.get(k) for k in ("matrix", "columns", "secondary", "find_all", "max_solutions", "max_iter")})
+            if "matrix" in o:
+                out.append({k: o.get(k) for k in ("matrix", "columns", "secondary", "find_all", "max_solutions", "max_iter", "dress")})
     return out
 
 
@@ -422,31 +561,82 @@ def judge(ctx, case, out, mutated, nondet, record=True):
     return True
 
 
+def _planted(rng):
+    """A small instance with several covers (for the option sweeps)."""
+    while True:
+        m, nc = gen_matrix(rng, False)
+        if 3 <= len(m) <= 7 and 2 <= nc <= 6 and all(len(r) == nc for r in m):
+            c = {"matrix": [[1 if v else 0 for v in r] for r in m], "columns": None,
+                 "secondary": [nc - 1] if rng.random() < 0.4 else None, "find_all": True, "max_solutions": None, "max_iter": None}
+            out, _, _ = run_impl(c)
+            if out["kind"] == "done" and len(out["sels"]) >= 3 and out["iterations"] <= 40:
+                return c
+
+
+def run_size_instance(inst, timeout=30):
+    name, build, check = inst
+    M, kw = build()
+    snap = (len(M), repr(M[0]), repr(M[len(M) // 2]), repr(M[-1]))
+    args = (M, None, kw.pop("secondary", None))
+    out = canon_result(guarded(call_args, args, kw, timeout=timeout))
+    if (len(M), repr(M[0]), repr(M[len(M) // 2]), repr(M[-1])) != snap:
+        return out, "the matrix was modified by the call"
+    return out, check(out)
+
+
 def run(ctx: Ctx):
+    from harness.props import C07_hard as H
+
     ctx.rule = ("random 0/1 matrices, 0..7 rows x 0..6 columns (thorough: ..10 x ..8), planted covers + noise / uniform density, "
                 "empty rows, duplicate rows, empty columns, secondary subsets incl. all-secondary, names given or not, "
                 "find_all on/off, max_solutions in {None,0,-1,1,2,5}, max_iter in {default,-2,0,1,3,10,25}, a few ragged / "
-                "malformed calls; non-trivial = well-formed call, >= 2 rows, >= 1 primary column and the search made >= 3 "
+                "malformed calls; round-2 families: L label pools (None, falsy, fresh equal objects, int names that are not "
+                "positions, huge ints, mixed), I container types (tuple/bytes/bytearray/range/str), M magnitudes of entries "
+                "and limits, O sweeps of max_iter 0..N+2 and max_solutions -2..k+2, A shared argument objects over call "
+                "sequences / aliased rows / secondary-is-columns, S by-construction instances up to 131073 rows (10^6 "
+                "thorough) and cover depth 900, H event-directed cases from an instrumented reference port; "
+                "non-trivial = well-formed call, >= 2 rows, >= 1 primary column and the search made >= 3 "
                 "iterations; distinct = canonical JSON of the whole call")
     ctx.proof_step(["C07"])
     if (COQ / "Props" / "C07_deep.v").exists(): ctx.proof_step(["C07"], props_file="Props/C07_deep.v")  # noqa: E701
     big = ctx.tier == "thorough"
-    n = ctx.budget(900, 12000)
+    n = ctx.budget(700, 12000)
+    rng = ctx.rng
 
-    cases = _corpus() + [copy.deepcopy(c) for c in EDGE_CASES] + [gen_case(ctx.rng, big) for _ in range(n)]
+    cases = _corpus() + [copy.deepcopy(c) for c in EDGE_CASES] + [gen_case(rng, big) for _ in range(n)]
+    cases += [H.gen_labels(rng, gen_matrix) for _ in range(ctx.budget(120, 1500))]
+    cases += [H.gen_containers(rng, gen_matrix) for _ in range(ctx.budget(90, 1000))]
+    cases += [H.gen_magnitudes(rng, gen_matrix) for _ in range(ctx.budget(50, 500))]
+    cases += [H.gen_medium(rng) for _ in range(ctx.budget(60, 600))]
+    uncut = {}
+    for _ in range(ctx.budget(3, 15)):
+        base = _planted(rng)
+        key = json.dumps(base["matrix"]) + json.dumps(base["secondary"])
+        its = {}
+        for fa in (True, False):
+            b2 = dict(base, find_all=fa)
+            uncut[(key, fa)] = run_impl(b2)[0]
+            its[fa] = uncut[(key, fa)]["iterations"]
+        cases += H.sweep_cases(base, its, len(uncut[(key, True)]["sels"]))
 
     coq_cases, metas = [], []
-    for case in cases:
+    ev_hist = {}
+
+    def process(case):
         out, mutated, nondet = run_impl(case)
         ctx.evaluations += 1
+        fam = case.get("family", "base")
         nr = len(case["matrix"])
         nc = len(case["matrix"][0]) if case["matrix"] else 0
+        ctx.count("family", fam.split(":")[0])
+        if fam != "base":
+            ctx.count("family_detail", fam)
         ctx.count("rows", nr)
         ctx.count("cols", nc)
         ctx.count("outcome", out.get("status", out["kind"]))
         ctx.count("find_all", case["find_all"])
-        ctx.count("max_solutions", case["max_solutions"])
-        ctx.count("max_iter", case["max_iter"])
+        ctx.count("max_solutions", case["max_solutions"] if case["max_solutions"] is None or abs(case["max_solutions"]) < 100 else "huge")
+        ctx.count("max_iter", case["max_iter"] if case["max_iter"] is None or abs(case["max_iter"]) < 100 else "huge")
         rd = reading(case)
         ctx.count("call", "well-formed" if rd else "malformed")
         if rd:
@@ -455,10 +645,73 @@ def run(ctx: Ctx):
                 ctx.count("n_selections", min(len(out["sels"]), 6))
                 if nr >= 2 and rd[2] and out["iterations"] >= 3:
                     ctx.nontriv(json.dumps(case, sort_keys=True, default=str))
-        judge(ctx, case, out, mutated, nondet)
+            if nr <= 16:
+                for e in H.events_of(case, reading):
+                    ev_hist[e] = ev_hist.get(e, 0) + 1
+        found = judge(ctx, case, out, mutated, nondet)
+        if not found and rd and (fam[0] in "LI") and out["kind"] == "done":
+            # metamorphic: plain string names / plain lists must give the identical result
+            plain = H.relabel_plain(case, number_names)
+            o2 = run_impl(plain)[0]
+            if o2 != out:
+                ctx.violation("solve_exact_cover: the result depends on the TYPE of the column names / containers "
+                              f"(family {fam}): {out} but with plain string names and lists {o2}",
+                              {"kind": "case", "case": case, "impl_out": out, "plain_case": plain, "plain_out": o2})
+        if not found and fam.startswith("O:"):
+            key = json.dumps(case["matrix"]) + json.dumps(case["secondary"])
+            bad = H.sweep_oracle(case, out, uncut[(key, case["find_all"])]) if (key, case["find_all"]) in uncut else None
+            if bad:
+                ctx.violation("solve_exact_cover: " + bad, {"kind": "case", "case": case, "impl_out": out})
         ctx.sample({"case": case, "impl_out": out}, 3)
         coq_cases.append(f"({coq_input(case)}, {coq_outcome(out)})")
         metas.append((case, out))
+
+    for case in cases:
+        process(case)
+
+    # ---- H: rare internal events (instrumented reference port); search for the ones this run has not produced
+    for e in H.EVENTS:
+        want = 4 if not big else 12
+        tries = 0
+        while ev_hist.get(e, 0) < want and tries < want:
+            tries += 1
+            c = H.directed(rng, e, reading, gen_case, mutate)
+            if c is None:
+                break
+            process(c)
+    for e in H.EVENTS:
+        ctx.count("events", e, ev_hist.get(e, 0))
+    missing = [e for e in H.EVENTS if not ev_hist.get(e)]
+    if missing:
+        ctx.notes.append(f"internal events not reached in this run: {missing}")
+
+    # ---- A: one set of argument objects over a sequence of calls with different options, both orders
+    seq_pool = [c for c, o in metas if reading(c) and o["kind"] == "done" and len(c["matrix"]) >= 2]
+    for c in rng.sample(seq_pool, min(len(seq_pool), ctx.budget(40, 400))):
+        ctx.evaluations += 1
+        bad = H.sequence_check(c, rng, materialize, call_args, canon_result, options)
+        ctx.count("family", "A")
+        if bad:
+            ctx.violation("solve_exact_cover: " + bad, {"kind": "case", "case": c, "sequence": True})
+
+    # ---- S: large structured instances, answer known by construction (not sent to vm_compute)
+    for inst in H.size_instances(ctx.tier):
+        out, bad = run_size_instance(inst)
+        ctx.evaluations += 1
+        ctx.count("family", "S")
+        ctx.count("size_instances", inst[0] + (" -> ok" if not bad else " -> FAIL"))
+        if bad:
+            ctx.violation(f"solve_exact_cover on a large structured instance ({inst[0]}): {bad}",
+                          {"kind": "size", "name": inst[0], "impl_out": {k: (v if k != "sels" else v[:5]) for k, v in out.items()}})
+    for inst in H.deep_instances():
+        out, bad = run_size_instance(inst)
+        ctx.evaluations += 1
+        ctx.count("size_instances", inst[0] + (" -> ok" if not bad else " -> " + out.get("type", "FAIL")))
+        if bad and out.get("type") == "RecursionError":
+            ctx.known_hit(H.RECURSION_ID, "RecursionError when an exact cover needs about 995+ rows (search() recurses once per "
+                          "selected row), e.g. the 1025x1025 identity matrix; the cover 0..1024 exists")
+        elif bad:
+            ctx.violation(f"solve_exact_cover on a deep instance ({inst[0]}): {bad}", {"kind": "size", "name": inst[0]})
 
     failing = ctx.coq_check("corr", IMPORTS, "input * outcome",
                             "fun c => outcome_eqb (solve (fst c)) (snd c)", coq_cases)
@@ -488,6 +741,10 @@ def run(ctx: Ctx):
                      "the harness only (not expressible in the model; determinism of the model is definitional)")
     ctx.notes.append("malformed calls (wrong number of column names, truthy entry beyond the named columns) are only "
                      "compared with the model (IndexError / phantom column); the property makes no claim about them")
+    ctx.notes.append("column names of any type are mapped to nat ids for the model by Python's own ==/hash (harness), so the model "
+                     "never sees the label objects; label-type independence is checked by the relabelling oracle; instances of "
+                     "more than 12 rows are judged by a set-based branching reference, the large structured ones (S) by "
+                     "construction, neither goes through vm_compute")
 
     # ---- model and implementation disagree (or a proof broke) but the oracle found nothing: search harder
     if (failing or ctx.broken) and not ctx.violations:
@@ -534,7 +791,28 @@ def mutate(rng, case):
 
 
 def replay(obj):
+    if obj.get("kind") == "size":
+        from harness.props import C07_hard as H
+
+        for inst in H.size_instances("thorough") + H.deep_instances():
+            if inst[0] == obj.get("name"):
+                out, bad = run_size_instance(inst)
+                print("instance:", inst[0])
+                print("implementation output:", {k: (v if k != "sels" else v[:5]) for k, v in out.items()})
+                print("by-construction verdict:", bad or "ok")
+                return 1 if bad else 0
+        print("unknown size instance", obj.get("name"))
+        return 1
     case = obj.get("case")
+    if obj.get("sequence") and case is not None:
+        import random
+        from harness.props import C07_hard as H
+
+        bad = None
+        for k in range(20):
+            bad = bad or H.sequence_check(case, random.Random(k), materialize, call_args, canon_result, options)
+        print("call-sequence verdict:", bad or "ok")
+        return 1 if bad else 0
     if obj.get("kind") != "case" or case is None:
         print("replay names an unchecked obligation:", obj.get("unchecked") or obj.get("what"))
         return 1
